@@ -234,7 +234,8 @@ def _sorter_run(case, fault):
     try:
         nostdin.__enter__()
         before = _fds()
-        sorter, _, _ = G.make_generic({"flavour": "t/int"}, case["cap"], case["always"], tmp)
+        raw = bool(case.get("raw"))       # str items stored as their own text: the empty string is a zero-byte record
+        sorter, _, _ = G.make_generic({"flavour": "praw" if raw else "t/int"}, case["cap"], case["always"], tmp)
         obs, surfaced, tainted, stopped = [], [], False, False
         kept = []
         for o in case["ops"]:
@@ -247,7 +248,7 @@ def _sorter_run(case, fault):
                 continue
             if o[0] == "add":
                 try:
-                    sorter.add((o[1], o[2], 0, 0))
+                    sorter.add("a" * o[1] if raw else (o[1], o[2], 0, 0))
                 except Exception as e:  # noqa: BLE001
                     out = G.exc_code(e)
             elif o[0] == "iter":
@@ -276,7 +277,8 @@ def _sorter_run(case, fault):
                 surfaced.append([o[0], inj.hit, out])
                 if o[0] != "close" and inj.hit in TAINTING:
                     tainted = True
-            obs.append([out or [], [[x[0], x[1], x[3]] for x in items], len(os.listdir(tmp)), len(_fds() - before)])
+            obs.append([out or [], [([len(x), len(x), 1] if raw else [x[0], x[1], x[3]]) for x in items],
+                        len(os.listdir(tmp)), len(_fds() - before)])
             if case["stop"] and out is not None:
                 stopped = True
         closes = []
@@ -497,7 +499,68 @@ def _trunc_run(case):
     return {"trunc": True, "_runs": runs}
 
 
+def _typedw_run(case):
+    """a sorting MafWriter on the built-in typed scheme gdc-1.0.0, Lenient or Silent; the first record handed over is
+    one column short (built through the API), the following ones are complete and valid.  No fault.  close() returning
+    normally, the output has to hold every valid record as it was handed over."""
+    import logging
+    import maflib.writer as mw
+    import so_common
+    from maflib.header import MafHeader
+    from maflib.record import MafRecord
+    from maflib.scheme_factory import find_scheme
+    from maflib.sorter import MafSorter
+    from maflib.validation import ValidationStringency
+    os.makedirs(WORK, exist_ok=True)
+    tmp = tempfile.mkdtemp(prefix="c18g_", dir=WORK)
+    inj = Inj(None, 0, tmp)
+    saved = install(inj)
+    saved_sorter = mw.MafSorter
+    cap = case["cap"]
+    mw.MafSorter = lambda **kw: MafSorter(max_objects_in_ram=cap, **kw)
+    problems = []
+    try:
+        mode = ValidationStringency.Lenient if case["mode"] == "Lenient" else ValidationStringency.Silent
+        scheme = find_scheme(version="gdc-1.0.0", annotation=None)
+        header = MafHeader.from_lines(["#version gdc-1.0.0", "#sort.order Coordinate"], validation_stringency=ValidationStringency.Silent)
+        out = _Out()
+        writer = mw.MafWriter.from_fd(out, header, validation_stringency=mode, assume_sorted=False)
+        names = list(so_common.GDC_NAMES)
+        valid, exc = [], None
+        try:
+            for n, k in enumerate(case["keys"]):
+                d = dict(so_common.GDC_TEMPLATE)
+                d.update({"Start_Position": str(k + 1), "End_Position": str(k + 1), "Hugo_Symbol": "r%d" % n})
+                vals = [d.get(x, "") for x in names]
+                if n == 0 and case.get("short_first"):
+                    rec = MafRecord.from_line("\t".join(vals[:-1]), column_names=names[:-1], scheme=scheme, validation_stringency=mode)
+                else:
+                    rec = MafRecord.from_line("\t".join(vals), scheme=scheme, validation_stringency=mode)
+                    valid.append(str(rec))
+                writer += rec
+            writer.close()
+        except Exception as e:  # noqa: BLE001
+            exc = G.exc_code(e)
+        if exc is None:
+            lines = (out.final or "").splitlines()
+            missing = [t for t in valid if t not in lines]
+            if missing:
+                problems.append("writer-lost-records typed scheme gdc-1.0.0, %s, first record one column short: close() returned "
+                                "but %d of %d valid record(s) are not in the output (%d empty line(s))" % (
+                                    case["mode"], len(missing), len(valid), sum(1 for l in lines if l == "")))
+            if os.listdir(tmp):
+                problems.append("spill-file-left typed writer: %d file(s)" % len(os.listdir(tmp)))
+        return {"trunc": True, "_runs": [], "_typed": problems, "_typed_exc": exc, "_n": len(valid)}
+    finally:
+        logging.disable(logging.CRITICAL)
+        mw.MafSorter = saved_sorter
+        uninstall(saved)
+        shutil.rmtree(tmp, ignore_errors=True)
+
+
 def run_impl(case):
+    if case["kind"] == "typedw":
+        return _typedw_run(case)
     if case["kind"] == "trunc":
         return _trunc_run(case)
     one = _sorter_run if case["kind"] == "sorter" else _writer_run
@@ -532,8 +595,8 @@ def _wops(case):
 
 
 def to_model(case):
-    if case["kind"] == "trunc":
-        return [0, 1, 1, []]           # no model of a damaged file's content: judged by the oracle only
+    if case["kind"] in ("trunc", "typedw"):
+        return [0, 1, 1, []]           # no model of a damaged file's content / of the typed codec: judged by the oracle only
     eno = _fl(case)
     if case["kind"] == "sorter":
         if case["fault"] == "sweep":
@@ -552,9 +615,10 @@ def _m_out(o):
 
 
 def _m_sorter(sx):
-    obs, closes, counts, log, hit, cc, drops = sx
+    obs, closes, counts, log, hit = sx
+    fin = [counts[0], counts[1] + counts[2] + counts[3]]
     return {"obs": [[_m_out(o[0]), o[1], o[2], o[3]] for o in obs], "closes": closes,
-            "after_close": [cc[0], cc[1] + cc[2] + cc[3]], "drops": [d for d in drops if d],
+            "after_close": fin, "drops": [],
             "final": [counts[0], counts[1] + counts[2] + counts[3]], "log": log, "hit": (hit[0] if hit else None)}
 
 
@@ -567,7 +631,7 @@ def _m_writer(sx):
 
 
 def from_model(case, sx):
-    if case["kind"] == "trunc":
+    if case["kind"] in ("trunc", "typedw"):
         return {"trunc": True}
     one = _m_sorter if case["kind"] == "sorter" else _m_writer
     if case["fault"] == "sweep":
@@ -604,6 +668,16 @@ def _judge(case, r, label):
         if r["closes"][-1] == [] and len(r["closes"]) <= 2 and (r["after_close"][0] or r["after_close"][1]):
             out.append("descriptor-left-while-generator-alive %s: after close() returned: %d file(s), %d descriptor(s), "
                        "the caller still holding %d generator(s)" % (label, r["after_close"][0], r["after_close"][1], r.get("_n_kept", 0)))
+        # without a fault, an iteration pulled beyond its end returns everything added so far
+        if r["hit"] is None:
+            n_added = 0
+            for n, (op, o) in enumerate(zip(case["ops"], r["obs"])):
+                if op[0] == "close":
+                    break                       # close() discards what was spilled
+                if op[0] == "add" and o[0] == []:
+                    n_added += 1
+                if op[0] == "iter" and o[0] == [] and op[1] > n_added and len(o[1]) != n_added:
+                    out.append("silent-loss %s: iteration at op %d returned %d of %d records and no exception" % (label, n, len(o[1]), n_added))
         # while no fault has happened and no generator is kept, no gzip handle stays open between operations
         kept = False
         for n, (op, o) in enumerate(zip(case["ops"], r["obs"])):
@@ -632,7 +706,7 @@ def _judge(case, r, label):
 
 def oracle(case, obs):
     if "trunc" in obs:
-        out = []
+        out = list(obs.get("_typed") or [])
         for t in obs["_runs"]:
             if t["exc"] is None and sorted(t["got"]) != sorted(t["want"]):
                 out.append("truncated-spill-file-silently-lost-records %s: file cut to %d of %d bytes, no exception, %d of %d records returned" % (
@@ -653,6 +727,8 @@ def signature(case, violation):
 def classify(case, obs):
     if obs is None:
         return "%s/%s/error" % (case["stream"], case["kind"])
+    if case["kind"] == "typedw":
+        return "%s/typed-writer/%s/%s" % (case["stream"], case["mode"], "raised" if obs.get("_typed_exc") else "closed")
     if "trunc" in obs:
         return "%s/trunc/%s" % (case["stream"], "+".join(sorted(set("raised" if t["exc"] else "complete" for t in obs["_runs"]))) or "nospill")
     n = len(obs["base"]["log"] or [])
@@ -671,6 +747,8 @@ def classify(case, obs):
 
 
 def nontrivial(case, obs):
+    if case["kind"] == "typedw":
+        return obs.get("_n", 0) >= 2
     if "trunc" in obs:
         return bool(obs["_runs"])
     return len(obs["base"]["log"] or []) >= 8
@@ -703,6 +781,11 @@ def _history(rng, stream):
         ops.append(["iter", full])
         if rng.random() < 0.5:
             ops.append(["close"])
+    raw = rng.random() < 0.15
+    if raw:
+        for o in ops:
+            if o[0] == "add":
+                o[2] = o[1]             # str items "a"*k: k = 0 is a record of zero bytes
     if rng.random() < 0.3:
         # the caller keeps a half-consumed generator alive across close()
         for o in ops:
@@ -711,7 +794,7 @@ def _history(rng, stream):
                 if o[1] > n and rng.random() < 0.8:
                     o[1] = rng.randint(1, max(1, n))
     return {"stream": stream, "kind": "sorter", "cap": cap, "always": rng.random() < 0.6,
-            "stop": stream != "adversarial" or rng.random() < 0.4, "ops": ops, "fault": "sweep",
+            "stop": stream != "adversarial" or rng.random() < 0.4, "ops": ops, "fault": "sweep", "raw": raw,
             "flavour": rng.choice([0, 0, 0, 1, 2, 2]), "nostdin": rng.random() < 0.35}
 
 
@@ -731,7 +814,13 @@ def generate(rng, n):
     for _ in range(n):
         stream = rng.choice(["valid", "defect", "boundary", "adversarial"])
         r = rng.random()
-        if r < 0.08:
+        if r < 0.04:
+            n_ = rng.randint(2, 7)
+            ks = list(range(n_))
+            rng.shuffle(ks)
+            out.append({"stream": stream, "kind": "typedw", "cap": rng.randint(1, n_ + 1), "keys": ks,
+                        "mode": rng.choice(["Lenient", "Silent"]), "short_first": rng.random() < 0.7})
+        elif r < 0.10:
             n_ = rng.randint(2, 9)
             ks = list(range(n_))
             rng.shuffle(ks)
@@ -798,13 +887,20 @@ def corpus():
          "fault": None},
         {"stream": "corpus", "kind": "sorter", "cap": 2, "always": True, "stop": False, "ops": adds + [["iter", 2, 1]],
          "fault": "sweep", "flavour": 0},
+        # pinned tree before 8becf44: with a scheme AND no explicit names the codec still took its names from the first
+        # record; a first record one column short made every later valid record re-parse as empty
+        # seeded change: `if not data` for the end-of-file test: a record of zero bytes ended its spill file
+        {"stream": "corpus", "kind": "sorter", "cap": 3, "always": True, "stop": True, "raw": True,
+         "ops": [["add", 2, 2], ["add", 0, 0], ["add", 1, 1], ["add", 4, 4], ["add", 3, 3], ["iter", 7]], "fault": None},
+        {"stream": "corpus", "kind": "typedw", "cap": 2, "keys": [3, 1, 2, 5, 4], "mode": "Lenient", "short_first": True},
+        {"stream": "corpus", "kind": "typedw", "cap": 9, "keys": [3, 1, 2], "mode": "Silent", "short_first": True},
         {"stream": "corpus", "kind": "trunc", "cap": 2, "keys": [3, 1, 2, 5, 4, 0], "writer": False},
         {"stream": "corpus", "kind": "trunc", "cap": 2, "keys": [3, 1, 2, 5, 4, 0], "writer": True},
     ]
 
 
 def shrink(case):
-    if case["kind"] == "trunc":
+    if case["kind"] in ("trunc", "typedw"):
         ks = case["keys"]
         for i in range(len(ks)):
             yield dict(case, keys=ks[:i] + ks[i + 1:])
